@@ -211,6 +211,7 @@ func Run(cfg RunCfg) RunResult {
 	}()
 	tick := time.NewTicker(50 * time.Millisecond)
 	defer tick.Stop()
+	var idleSince, idleMark time.Time
 	sd, rd := false, false
 	for !(sd && rd) {
 		select {
@@ -223,6 +224,24 @@ func Run(cfg RunCfg) RunResult {
 		case <-tick.C:
 			_, last := cfg.Pair.Progress()
 			idle := !last.IsZero() && time.Since(last) > cfg.Idle && time.Since(start) > cfg.Idle
+			if idle {
+				// "no byte moved for Idle" is first only a sighting: on a machine whose cores are
+				// all taken the endpoints themselves may simply not have been scheduled. It
+				// counts as a hang when it persists for another 2 x Idle (at least 8 s) during
+				// which this runner demonstrably kept running (it ticks every 50 ms).
+				if idleSince.IsZero() || last.After(idleMark) {
+					idleSince, idleMark = time.Now(), last
+				}
+				confirm := 2 * cfg.Idle
+				if confirm < 8*time.Second {
+					confirm = 8 * time.Second
+				}
+				if time.Since(idleSince) < confirm {
+					idle = false
+				}
+			} else {
+				idleSince = time.Time{}
+			}
 			if idle || time.Since(start) > cfg.Watchdog {
 				mu.Lock()
 				res.Hung = true
